@@ -48,7 +48,7 @@ CHECKS = {
     note="Prepending a `prql target:` header is assumed to be a pure addition for programs that parse both with and without it (others are skipped and counted). Signature comment off; errors compared on (reason, hints).",
     design="§3 C18"),
 }
-CLAIMED = ["C02", "C08", "C11", "C14", "C15", "C16", "C17", "C18"]
+CLAIMED = ["C%02d" % i for i in range(1, 19)]
 PENDING_REASON = "check not yet built in this revision of /verif (planned, see DESIGN.md §3); not claimed until its monitor exists"
 
 def main():
